@@ -435,6 +435,12 @@ func (cl *cluster) enabled() []string {
 				continue
 			}
 			for i := range cl.nodes {
+				// Quorum intersection (an acknowledged write is on a majority, a bootstrap needs a majority) only holds
+				// within a replica set of RF identities: where data oracles are on, only the volume's own RF replicas
+				// take part in a bootstrap; further identities join through add (C09's election oracle has no such limit).
+				if i >= c.RF && (cl.wants("c02") || cl.wants("c04") || cl.wants("c05")) {
+					continue
+				}
 				if cl.nodes[i].View().State == "closed" {
 					out = append(out, fmt.Sprintf("%s:%d", t, i))
 				}
